@@ -188,11 +188,18 @@ impl World {
             .map(|(t, _)| *t)
             .collect();
         let stale: Vec<u32> = self.model.issued_tx.iter().filter(|t| !self.model.pending.contains_key(t)).copied().collect();
-        match ctx.ch.weighted("op.arg.txk", &[8, 2, 1, 1]) {
+        match ctx.ch.weighted("op.arg.txk", &[8, 2, 1, 1, 1]) {
             0 if !pending.is_empty() => pending[ctx.ch.draw("op.arg.tx", pending.len() as u64) as usize] as f64,
             1 if !stale.is_empty() => stale[ctx.ch.draw("op.arg.tx", stale.len() as u64) as usize] as f64,
             2 => 0.0,
-            _ => *ctx.ch.pick("op.arg.tx", &[99.0f64, 4000.0]),
+            4 if !pending.is_empty() => {
+                // a never-issued id that is congruent to an outstanding one modulo 2^32 (or just
+                // very large): integral, so unambiguous, and certainly unknown
+                ctx.probe("f.tx_congruent_mod_2^32");
+                let k = pending[ctx.ch.draw("op.arg.tx", pending.len() as u64) as usize] as f64;
+                k + 4294967296.0 * (1 + ctx.ch.draw("op.arg.txn", 3)) as f64
+            }
+            _ => *ctx.ch.pick("op.arg.tx", &[99.0f64, 4000.0, 4294967295.0, 4294967296.0]),
         }
     }
 
@@ -258,7 +265,7 @@ impl World {
                 if bulk { 16 } else if playing { 6 } else { 2 }, // 4 audio / video
                 2,                                     // 5 onMetaData
                 if bulk { 4 } else { 2 },              // 6 ping request
-                1,                                     // 7 ping response / ack / other control
+                if bulk { 4 } else { 1 },              // 7 ping response / ack / other control
                 if bulk { 4 } else { 1 },              // 8 window ack
                 1,                                     // 9 set chunk size
                 1,                                     // 10 other commands / data
@@ -348,7 +355,18 @@ impl World {
                 0 => (msg::user_control(ts, 7, 77, None), 2),
                 1 => (msg::ack(ts, ctx.ch.draw("op.arg.seq", 1 << 32) as u32), 2),
                 2 => (msg::user_control(ts, 0, self.pick_sid(ctx), None), 2),
-                3 => (RefMsg { type_id: 6, msid: 0, ts, payload: vec![0, 0x26, 0x25, 0xA0, 2] }, 2),
+                3 => {
+                    // SetPeerBandwidth: any size (also far below the acknowledgement window), any limit type
+                    let size = match ctx.ch.weighted("op.arg.bwk", &[2, 3, 1]) {
+                        0 => 2_500_000u32,
+                        1 => ctx.ch.range("op.arg.bw", 1, 3000) as u32,
+                        _ => 0xFFFF_FFFF,
+                    };
+                    let mut p = size.to_be_bytes().to_vec();
+                    p.push(ctx.ch.draw("op.arg.bwlimit", 3) as u8);
+                    ctx.probe("peer.set_peer_bandwidth");
+                    (RefMsg { type_id: 6, msid: 0, ts, payload: p }, 2)
+                }
                 _ => (msg::user_control(ts, 4, 1, None), 2),
             },
             8 => {
